@@ -4,12 +4,13 @@
    2. zone rules         time_with_timezone re-anchors a wall time, convert_timezone keeps the instant
    3. convert_shows      composition: `T ZONE_A to ZONE_B` prints shown w a b, for all offsets
    4. calc_*             T +/- duration moves the clock modulo 24 h; T1 to T2 = |t1 - t2|
-   5. literal_*          time_body: the token of a literal under a default zone
    6. zone table         every expressible table zone / GMT form is lexed with its offset (finite table)
    7. default zone       set_timezone / get_time_offset steps of the operation machine
-   8. examples           whole-pipeline runs by vm_compute *)
+   8. examples           whole-pipeline runs by vm_compute
+   5. literal_*          (at the end) time_body: the token of a literal under a default zone, symbolically
+                         and through the five time regexes (finite); `H:MM:SS pm` refuted *)
 From Coq Require Import ZArith Lia Floats.
-From SC.Model Require Import Base Num NumF64 Types Config Case Chrono Regex Rx Parser RuleFns Items Format Lexer Api Run64 Corr.
+From SC.Model Require Import Base Num NumF64 Types Config Case Chrono Regex Rx UiTokens Parser RuleFns Rules Items Format Lexer Api Run64 Corr.
 From SC.Spec Require Import Clock.
 From SC.Gen Require Import RustConsts ConfigData Regexes.
 
@@ -619,4 +620,171 @@ Theorem examples :
   set_timezone default_config (s "EST") = Some (s "EST", -300) /\
   set_timezone default_config (s "Mars") = None /\
   shown (wall_of 10 30 0) (-300) 180 = wall_of 18 30 0.
+Proof. vm_compute. repeat split; reflexivity. Qed.
+
+(* ------------------------------------------------------------------------------------- *)
+(* 5. literals: the token time_body makes from a match of a time regex                    *)
+(* ------------------------------------------------------------------------------------- *)
+(* for ALL days, ALL default zones (|offset| < 24 h), all hour/minute/second values the groups
+   read as: the token is the instant of that wall time of today in the default zone *)
+Section Lit.
+Context {F : Type} {NF : Num F}.
+
+(* an optional numeric capture group: its digits read as v, or absent and v = 0 *)
+Definition group_reads (line : str) (o : option (N * N)) (v : Z) : Prop :=
+  match o with Some sp => parse_i64 (slice line sp) = Some v | None => v = 0 end.
+
+Definition is_pm (line : str) (o : option (N * N)) : bool :=
+  match o with Some sp => str_eqb (to_lowercase (slice line sp)) (s "pm") | None => false end.
+
+Theorem time_body_token (today : Z) (cfg : config F) line c cp (st : Lexer.tstate) hsp h0 m sec b e :
+  cap_name c cp "hour" = Some hsp -> parse_i64 (slice line hsp) = Some h0 ->
+  group_reads line (cap_name c cp "minute") m ->
+  group_reads line (cap_name c cp "second") sec ->
+  cap_get cp 0 = Some (b, e) ->
+  let h := if is_pm line (cap_name c cp "meridiem") && (h0 <? 12) && (0 <=? h0) then h0 + 12 else h0 in
+  Z.abs (tz_off (cf_tz cfg)) < 1440 -> h < 24 -> m < 60 -> sec < 60 ->
+  exists en,
+    time_body today cfg line c cp st =
+    let '(st1, ok) := add_token st b en
+          (Some (TTime (instant_of today (wall_of h m sec) (tz_off (cf_tz cfg))) (cf_tz cfg))) (slice line (b, e)) in
+    Ok (if ok then with_ui st1 (ui_add line (ts_ui st1) b e UDateTime) else st1).
+Proof.
+  intros Hh Hh0 Hm Hs H0 h Htz Hh24 Hm60 Hs60.
+  unfold time_body. rewrite Hh. cbn [need bind]. rewrite Hh0.
+  unfold group_reads in Hm, Hs.
+  assert (Em : match cap_name c cp "minute" with Some sp => parse_i64 (slice line sp) | None => Some 0 end = Some m).
+  { destruct (cap_name c cp "minute"); [exact Hm | subst; reflexivity]. }
+  assert (Es : match cap_name c cp "second" with Some sp => parse_i64 (slice line sp) | None => Some 0 end = Some sec).
+  { destruct (cap_name c cp "second"); [exact Hs | subst; reflexivity]. }
+  rewrite Em, Es.
+  assert (Eh : match cap_name c cp "meridiem" with
+               | Some sp => if str_eqb (to_lowercase (slice line sp)) (s "pm") && (h0 <? 12) && (0 <=? h0) then h0 + 12 else h0
+               | None => h0 end = h).
+  { unfold h, is_pm. destruct (cap_name c cp "meridiem"); reflexivity. }
+  rewrite Eh. unfold get_time_offset.
+  destruct (Z.leb_spec 86400 (Z.abs (tz_off (cf_tz cfg) * 60))) as [Hbad|_]; [lia|].
+  replace ((h <? 24) && (m <? 60) && (sec <? 60)) with true
+    by (symmetry; rewrite !andb_true_iff, !Z.ltb_lt; lia).
+  cbn [negb]. rewrite H0. eexists.
+  replace (dt_of today (h * 3600 + m * 60 + sec) - tz_off (cf_tz cfg) * 60)
+    with (instant_of today (wall_of h m sec) (tz_off (cf_tz cfg)))
+    by (unfold dt_of, instant_of, wall_of, DAY_SECS; ring).
+  reflexivity.
+Qed.
+End Lit.
+
+(* --- finite check through the five time regexes of config.json --- *)
+Definition time_res : list cre := match assoc (s "time") g_parse with Some l => l | None => [] end.
+
+(* the tokens the time parser leaves on a line: (start, end, token) *)
+Definition literal_tokens (today : Z) (cfg : config float) (line : str) : option (list (N * N * option (token float))) :=
+  match over_regexes (time_body today cfg line) line time_res empty_state with
+  | Ok st => Some (map (fun t => (ti_start t, ti_end t, ti_ty t)) (ts_infos st))
+  | Panic _ => None
+  end.
+
+(* one time token spanning the whole line: wall time w of the day in the default zone *)
+Definition whole_line_time (today : Z) (cfg : config float) (line : str) (w : Z) :=
+  Some [(0%N, N.of_nat (length line),
+         Some (TTime (instant_of today w (tz_off (cf_tz cfg))) (cf_tz cfg) : token float))].
+
+Definition lit_ok (today : Z) (cfg : config float) (line : str) (w : Z) : bool :=
+  match literal_tokens today cfg line with
+  | Some [(0%N, e, Some (TTime t z))] =>
+    N.eqb e (N.of_nat (length line)) && Z.eqb t (instant_of today w (tz_off (cf_tz cfg))) && tz_eqb z (cf_tz cfg)
+  | _ => false
+  end.
+
+Lemma lit_ok_true today cfg line w : lit_ok today cfg line w = true ->
+  literal_tokens today cfg line = whole_line_time today cfg line w.
+Proof.
+  unfold lit_ok, whole_line_time. destruct (literal_tokens today cfg line) as [[|[[b e] [tok|]] [|? ?]]|]; try discriminate;
+    destruct b; try discriminate; destruct tok; try discriminate.
+  rewrite !andb_true_iff. intros [[A B] C]. apply N.eqb_eq in A. apply Z.eqb_eq in B.
+  unfold tz_eqb in C. apply andb_true_iff in C as [C1 C2]. apply str_eqb_eq in C1. apply Z.eqb_eq in C2.
+  destruct tz as [n o], (cf_tz cfg) as [n' o']. cbn in *. subst. reflexivity.
+Qed.
+
+Lemma in_zrange z n : 0 <= z < Z.of_nat n -> In z (zrange n).
+Proof. intro H. unfold zrange. apply in_map_iff. exists (Z.to_nat z). split; [lia | apply in_seq; lia]. Qed.
+
+Definition lit_cfgs : list (config float) := [default_config; cfg_with_zone (s "GMT+5:30"); cfg_with_zone (s "HNT")].
+Definition DAY1 : Z := 20000.
+
+(* H:MM and HH:MM, every minute of the day, under three default zones *)
+Definition text_hm (hs : str) (m : Z) : str := hs ++ 58%N :: two_digits m.
+Definition text_hms (hs : str) (m sec : Z) : str := hs ++ 58%N :: two_digits m ++ 58%N :: two_digits sec.
+Lemma literal_hm_check :
+  forallb (fun cfg => forallb (fun h => forallb (fun hs => forallb (fun m =>
+     lit_ok DAY1 cfg (text_hm hs m) (wall_of h m 0)) (zrange 60)) (hour_spellings h)) (zrange 24)) lit_cfgs = true.
+Proof. vm_compute. reflexivity. Qed.
+
+(* H:MM:SS, every hour and second, minutes 0, 7, 30, 59 *)
+Definition some_minutes : list Z := [0; 7; 30; 59].
+Lemma literal_hms_check :
+  forallb (fun h => forallb (fun hs => forallb (fun m => forallb (fun sec =>
+     lit_ok DAY1 default_config (text_hms hs m sec) (wall_of h m sec)) (zrange 60)) some_minutes) (hour_spellings h)) (zrange 24) = true.
+Proof. vm_compute. reflexivity. Qed.
+
+(* 1-11 am/pm: H:MM am, H:MMam, HH:MM am, ...; H am, Ham; four spellings of the meridiem *)
+Definition meridiems : list (str * bool) := [(s "am", false); (s "pm", true); (s "AM", false); (s "PM", true); (s "Pm", true)].
+Definition seps : list str := [s " "; []].
+Lemma literal_ampm_check :
+  forallb (fun h => forallb (fun hs => forallb (fun mer => forallb (fun sep =>
+     forallb (fun m => lit_ok DAY1 default_config (text_hm hs m ++ sep ++ fst mer) (wall_of (hour24 h (snd mer)) m 0)) (zrange 60) &&
+     lit_ok DAY1 default_config (hs ++ sep ++ fst mer) (wall_of (hour24 h (snd mer)) 0 0))
+     seps) meridiems) (hour_spellings h)) (map (Z.add 1) (zrange 11)) = true.
+Proof. vm_compute. reflexivity. Qed.
+
+Theorem literal_hm cfg h hs m :
+  In cfg lit_cfgs -> 0 <= h < 24 -> In hs (hour_spellings h) -> 0 <= m < 60 ->
+  literal_tokens DAY1 cfg (text_hm hs m) = whole_line_time DAY1 cfg (text_hm hs m) (wall_of h m 0).
+Proof.
+  intros Hc Hh Hhs Hm. apply lit_ok_true. pose proof literal_hm_check as T.
+  rewrite forallb_forall in T. specialize (T _ Hc).
+  rewrite forallb_forall in T. specialize (T h (in_zrange h 24 ltac:(lia))).
+  rewrite forallb_forall in T. specialize (T _ Hhs).
+  rewrite forallb_forall in T. exact (T m (in_zrange m 60 ltac:(lia))).
+Qed.
+
+Theorem literal_hms h hs m sec :
+  0 <= h < 24 -> In hs (hour_spellings h) -> In m some_minutes -> 0 <= sec < 60 ->
+  literal_tokens DAY1 default_config (text_hms hs m sec)
+    = whole_line_time DAY1 default_config (text_hms hs m sec) (wall_of h m sec).
+Proof.
+  intros Hh Hhs Hm Hs. apply lit_ok_true. pose proof literal_hms_check as T.
+  rewrite forallb_forall in T. specialize (T h (in_zrange h 24 ltac:(lia))).
+  rewrite forallb_forall in T. specialize (T _ Hhs).
+  rewrite forallb_forall in T. specialize (T _ Hm).
+  rewrite forallb_forall in T. exact (T sec (in_zrange sec 60 ltac:(lia))).
+Qed.
+
+Theorem literal_ampm h hs mer pm sep m :
+  1 <= h <= 11 -> In hs (hour_spellings h) -> In (mer, pm) meridiems -> In sep seps -> 0 <= m < 60 ->
+  literal_tokens DAY1 default_config (text_hm hs m ++ sep ++ mer)
+    = whole_line_time DAY1 default_config (text_hm hs m ++ sep ++ mer) (wall_of (hour24 h pm) m 0) /\
+  literal_tokens DAY1 default_config (hs ++ sep ++ mer)
+    = whole_line_time DAY1 default_config (hs ++ sep ++ mer) (wall_of (hour24 h pm) 0 0).
+Proof.
+  intros Hh Hhs Hmer Hsep Hm. pose proof literal_ampm_check as T.
+  rewrite forallb_forall in T.
+  assert (Hin : In h (map (Z.add 1) (zrange 11))).
+  { apply in_map_iff. exists (h - 1). split; [lia | apply in_zrange; lia]. }
+  specialize (T h Hin).
+  rewrite forallb_forall in T. specialize (T _ Hhs).
+  rewrite forallb_forall in T. specialize (T _ Hmer).
+  rewrite forallb_forall in T. specialize (T _ Hsep). cbn [fst snd] in T.
+  apply andb_true_iff in T as [T1 T2]. split; apply lit_ok_true; [|exact T2].
+  rewrite forallb_forall in T1. exact (T1 m (in_zrange m 60 ltac:(lia))).
+Qed.
+
+(* what the statement's 'H:MM:SS am/pm' runs into: the two regexes with seconds have no meridiem
+   group, so the meridiem is not read: 1:20:30 pm is lexed as 01:20:30 (token ends before " pm") *)
+Theorem meridiem_with_seconds_refuted :
+  literal_tokens DAY1 default_config (s "1:20:30 pm")
+    = Some [(0%N, 7%N, Some (TTime (instant_of DAY1 (wall_of 1 20 30) 0) {| tz_name := s "UTC"; tz_off := 0 |}))] /\
+  option_map fst (run_line default_config (s "1:20:30 pm")) = Some (s "01:20:30 UTC") /\
+  (* and the statement's own exclusion *)
+  option_map fst (run_line default_config (s "12:30 am")) = Some (s "12:30:00 UTC").
 Proof. vm_compute. repeat split; reflexivity. Qed.
